@@ -152,9 +152,13 @@ def replay(module, func, args, timeout=900):
                            timeout=timeout)
     except subprocess.TimeoutExpired:
         return {'timeout': True}
+    notes = [ln for ln in p.stdout.splitlines() if ln.startswith('KERNEL-')]
     for line in p.stdout.splitlines():
         if line.startswith('REPLAY-RESULT '):
-            return json.loads(line[len('REPLAY-RESULT '):])
+            r = json.loads(line[len('REPLAY-RESULT '):])
+            if notes:
+                r['notes'] = notes
+            return r
     return {'error': 'no replay result', 'stderr': p.stderr[-2000:],
             'stdout': p.stdout[-2000:]}
 
@@ -224,22 +228,31 @@ def run_native(ob):
         ob.verdict, ob.detail = INCONCLUSIVE, 'native run timed out'
     elif 'error' in r:
         ob.verdict, ob.detail = HARNESS_ERROR, 'native run failed: %r' % r
+    elif r.get('raised') and ob.kind == 'smt' and (
+            r['raised'].startswith('RuntimeError: solver answered') or
+            r['raised'].startswith('Unsupported')):
+        # `unknown` from the solver, or code outside the translated subset
+        ob.verdict, ob.detail = INCONCLUSIVE, r['raised']
     elif r.get('raised'):
         ob.verdict, ob.detail = HARNESS_ERROR, 'raised ' + r['raised']
     elif r.get('ok'):
-        ob.verdict, ob.detail = DISCHARGED, ''
+        ob.verdict, ob.detail = DISCHARGED, ' | '.join(r.get('notes', []))
         ob.twin_verdict = REFUTED
     else:
         ob.cex = ob.native_args or ''
         ob.verdict = VIOLATION
-        ob.detail = 'enumeration returned %s' % r.get('returned')
+        ob.detail = ('enumeration returned %s' % r.get('returned')
+                     if ob.kind == 'native' else
+                     'z3 counterexample replayed on the real code: ' +
+                     ' | '.join(n for n in r.get('notes', [])
+                                if n.startswith('KERNEL-CEX')))
     ob.time_s = time.time() - t0
     return ob
 
 
 def run_obligation(ob):
     t0 = time.time()
-    if ob.kind == 'native':
+    if ob.kind in ('native', 'smt'):
         return run_native(ob)
     if ob.kind != 'crosshair':
         raise ValueError(ob.kind)
